@@ -94,7 +94,8 @@ def isEmbObj : Sc → Bool
   | .cimClass => true
   | _ => false
 
-/-- mirrors _cim_obj.py: _check_embedded_object (called when embedded_object is truthy) -/
+/-- mirrors _cim_obj.py: _check_embedded_object (called `if embedded_object is not False:` since /repo ef0170b, i.e. for
+    'instance' / 'object' and for every other given value such as '' or 0, which it rejects) -/
 def checkEmb (bad : Bool) (t : Option Ty) (v : Val) : Except PyExc Unit :=
   if bad then .error .valueError
   else if t != some .string then .error .valueError
